@@ -132,5 +132,5 @@ PROPS["C19"] = dict(
                  "where H = 0 the declination and where F = 0 the inclination is not defined: the values returned there are compared with the Lean model of the code only",
                  "GravityModel includes the normal zonal terms only up to the first one that is negligible in binary64 against the model's own coefficient (documented heuristic); nothing is required beyond it",
                  "the compile-time data directory is the one of the Config.h generated by `check` (/usr/local/share/GeographicLib)",
-                 "findings F34-F37 (degree-0 term of T, Schmidt normal zonals, Jn for f = 0, int cast of the epoch number) are repaired in /repo; open: F77 (readcoeffs(truncate) with the documented request N = M = -1 leaves the stream N0 + 1 doubles beyond the block) is reported as KNOWN-FINDING for exactly that input class"],
+                 "findings F34-F37 (degree-0 term of T, Schmidt normal zonals, Jn for f = 0, int cast of the epoch number) and F92 (readcoeffs(truncate) with the documented request N = M = -1 left the stream N0 + 1 doubles beyond the block; repaired e86bab9) are repaired in /repo; the request (-1, -1) is part of the exhaustive readcoeffs stratum, so a regression alarms"],
 )
